@@ -57,3 +57,14 @@ pub open spec fn kind_for(a: Arity, ks: Seq<PK>, i: int) -> PK {
 pub open spec fn gate(a: Arity, ks: Seq<PK>, args: Seq<Value>) -> bool {
   count_ok(a, args.len() as int) && forall|i: int| 0 <= i < args.len() ==> kind_valid(kind_for(a, ks, i), #[trigger] args[i])
 }
+
+// ---- numbers narrowed to indices (C11) -----------------------------------------------------------------------------------------------------------
+#[derive(Clone, Copy)] pub struct F64 { pub bits: u64 }
+/// the number has no fractional part (NaN and the infinities have none in this sense either: f64::fract() is NaN for them, != 0.0)
+pub uninterp spec fn integral(x: F64) -> bool;
+/// `x.fract() != 0.0`
+#[verifier::external_body] pub fn verif_has_fract(x: F64) -> (r: bool) ensures r == !integral(x) { true }
+/// `x < 0.0`
+#[verifier::external_body] pub fn verif_is_neg(x: F64) -> (r: bool) { true }
+/// `x as usize`: silently truncates a fraction and maps NaN to 0
+#[verifier::external_body] pub fn verif_as_index(x: F64) -> (r: usize) requires integral(x) { 0 }
